@@ -21,12 +21,17 @@ def clang_ast(tu, flt, extra_flags=(), cache_dir=None):
     """Run clang on tu (absolute path) and return the list of JSON documents."""
     # ASLR off (setarch -R): node ids are heap addresses; with a deterministic layout several dumps of ONE translation unit
     # taken with different filters refer to each other consistently
+    # `SUB@NAME`: clang filters by the substring SUB, only the declaration called NAME (global or anonymous namespace) is kept.
+    # Filters of one unit must be 7..15 characters long: clang copies the filter to its heap, and a different allocation size
+    # shifts every later node id (measured); the printer aborts when dumps disagree (e_DeclRefExpr).
+    full = None
+    if '@' in flt: flt, full = flt.split('@', 1)
     cmd = ['setarch', 'x86_64', '-R', 'clang++'] + CLANG_FLAGS + list(extra_flags) + ['-Xclang', '-ast-dump=json', '-Xclang', '-ast-dump-filter=' + flt, tu]
     p = subprocess.run(cmd, stdout=subprocess.PIPE, stderr=subprocess.PIPE, universal_newlines=True)
     if p.returncode != 0:
         raise Unsupported('clang failed on %s: %s' % (tu, p.stderr[-2000:]))
     docs = parse_docs(p.stdout)
-    comps = flt.split('::')
+    comps = (full or flt).split('::')
     placed = {}
     for d in docs:
         # the dump starts at the matching declaration: its enclosing namespaces are recovered from the filter
@@ -74,7 +79,7 @@ SCALARS = {
     'unsigned long long': 'unsigned long long', 'long long': 'long long', 'signed char': 'signed char',
     'float': 'float', 'double': 'double', 'time_t': 'long', 'uintptr_t': 'uintptr_t', 'intptr_t': 'intptr_t',
     'ptrdiff_t': 'ptrdiff_t', 'std::ptrdiff_t': 'ptrdiff_t', 'off_t': 'long', 'pid_t': 'int', 'socklen_t': 'unsigned int',
-    'iovec': 'struct iovec', 'timeval': 'struct timeval', 'timespec': 'struct timespec',
+    'iovec': 'struct iovec', 'timezone': 'struct timezone', 'tm': 'struct tm', 'timeval': 'struct timeval', 'timespec': 'struct timespec',
     '__uint8_t': 'uint8_t', '__uint16_t': 'uint16_t', '__uint32_t': 'uint32_t', '__uint64_t': 'uint64_t',
 }
 INT_RANGE = {
@@ -347,7 +352,9 @@ class Unit:
         return t
 
     def ctype2(self, qt):
-        qt = qt.strip()
+        qt = qt.strip().replace('(anonymous namespace)::', '')
+        if re.match(r'^[^()]*\(\*(const)?\)\s*\(.*\)$', qt):
+            return 'v_fnptr', False       # pointer to function: an opaque code address; calls through it are stubs (models.indirect_call)
         is_ref = False
         if qt.endswith('&&'): qt = qt[:-2].strip(); is_ref = True
         elif qt.endswith('&'): qt = qt[:-1].strip(); is_ref = True
@@ -447,13 +454,24 @@ class Unit:
             kw = 'union'
         else:
             kw = 'struct'
+        named_unnamed = {}; last_unnamed = None      # field id -> the unnamed record that is its type (struct { ... } name;)
+        for c in n.get('inner', []):
+            if c.get('kind') in REC_KINDS and not c.get('name'): last_unnamed = c
+            elif c.get('kind') == 'FieldDecl' and c.get('name') and re.search(r'\((unnamed|anonymous) (struct|union) at ', c.get('type', {}).get('qualType', '')) and last_unnamed is not None:
+                named_unnamed[c['id']] = last_unnamed
+        consumed = set(id(x) for x in named_unnamed.values())
         for f in self.record_fields(n):
             if not f.get('name'): continue      # the implicit field of an anonymous union/struct
+            if f['id'] in named_unnamed:
+                c = named_unnamed[f['id']]
+                inner = ['    %s;' % self.decl_text(g, g['name'])[0] for g in self.record_fields(c)]
+                lines.append('  %s {\n%s\n  } %s;' % (c.get('tagUsed', 'struct'), '\n'.join(inner), f['name']))
+                continue
             txt, is_ref = self.decl_text(f, f['name'])
             lines.append('  %s;' % txt)
         anon_done = set()
         for c in n.get('inner', []):
-            if c.get('kind') in REC_KINDS and not c.get('name') and self.record_fields(c):
+            if c.get('kind') in REC_KINDS and not c.get('name') and self.record_fields(c) and id(c) not in consumed:
                 inner = []
                 for f in self.record_fields(c):
                     txt, _ = self.decl_text(f, f['name']); inner.append('    %s;' % txt)
@@ -701,6 +719,8 @@ class Unit:
             if self.models:
                 mv = self.models.global_var(name)
                 if mv is not None: return mv
+            if any(x.get('kind') == 'VarDecl' and x.get('name') == name for x in self.by_id.values()):
+                raise Unsupported('the AST dumps disagree on node ids for %s (filters of one unit must have lengths 7..22 so that clang lays its heap out identically) (in %s)' % (name, self.cur))
             raise Unsupported('reference to %s %s outside the unit (in %s)' % (rk, name, self.cur))
         raise Unsupported('DeclRefExpr to ' + rk)
 
@@ -821,7 +841,8 @@ class Unit:
     def e_ArraySubscriptExpr(self, n):
         a, b = self.kids(n); return '%s[%s]' % (self.expr(a), self.expr(b))
     def e_InitListExpr(self, n):
-        ct, _ = self.ctype_node(n) if '[' not in self.type_of(n) else (None, None)
+        if re.search(r'\((unnamed|anonymous) (struct|union) at ', self.type_of(n)): ct = None      # nested initialiser of an unnamed member type: plain braces
+        else: ct, _ = self.ctype_node(n) if '[' not in self.type_of(n) else (None, None)
         items = [self.expr(x) for x in self.kids(n)]
         if ct: return '((%s){%s})' % (ct, ', '.join(items))
         return '{%s}' % ', '.join(items)
@@ -1011,6 +1032,19 @@ class Unit:
         if self.models:
             r = self.models.indirect_call(self, n, ks[0], ks[1:])
             if r is not None: return r
+        ct = None
+        try: ct = self.ctype_node(self.strip(ks[0]))[0].strip()
+        except Unsupported: pass
+        if ct is not None and ct.replace('const ', '').strip() == 'v_fnptr':
+            # call through a pointer to function: stub v_indirect__<ret>_<params>(fp, args...) whose contract the spec supplies
+            t = self.strip(ks[0]).get('type', {}); fq = t.get('desugaredQualType') or t.get('qualType')
+            m = re.match(r'^(.*?)\(\*(?:const)?\)\s*\((.*)\)$', fq.strip())
+            sig = '%s (%s)' % (m.group(1).strip(), m.group(2))
+            nm = 'v_indirect__' + re.sub(r'_+', '_', re.sub(r'\W', '_', sig.replace('*', 'p').replace('&', 'r'))).strip('_')
+            self.count_call(nm)
+            _, ptypes, _ = fn_param_types(sig)
+            a = [self.bind_arg(ptypes[i] if i < len(ptypes) else None, x) for i, x in enumerate(ks[1:])]
+            return '%s(%s)' % (nm, ', '.join([self.expr(ks[0])] + a))
         raise Unsupported('indirect call (in %s)' % self.cur)
 
     def deref_if_ref_return(self, fn_qt, call):
@@ -1572,12 +1606,21 @@ class Unit:
             return
         txt, is_ref = self.decl_text(v, name)
         self.local_names[v['id']] = (name, is_ref); self.local_decls[v['id']] = v
+        mvla = re.match(r'^(.*) (\w+)\[([^\[\]]*[A-Za-z_][^\[\]]*)\]$', txt)
+        if mvla and self.spec.get(('vla_as_heap', self.cur)):
+            # variable-length array printed as a dynamic object of exactly that many elements, released at scope exit
+            # (dfcc mis-tracks locals that appear in a VLA bound, measured); sizeof(array) would differ and is not used
+            self.used_keys.add(('vla_as_heap', self.cur))
+            self.w(p + '%s *%s = (%s *)v_alloc_ok((size_t)(%s) * sizeof(%s));' % (mvla.group(1), name, mvla.group(1), mvla.group(3), mvla.group(1)))
+            self.scopes[-1]['vars'].append('free(%s);' % name)
+            return
         ks = self.kids(v)
         ct = txt.rsplit(' ', 1)[0]
         if self.models and self.models.is_model_type(ct) and not is_ref and '*' not in ct:
             self.models.local_object(self, v, ct, name, ks, p)
             return
-        if ct.startswith('struct ') and not ct.strip().endswith('*') and not is_ref and '[' not in txt:
+        SYS = ('struct iovec', 'struct timeval', 'struct timespec', 'struct timezone', 'struct tm')
+        if ct.startswith('struct ') and not ct.strip().endswith('*') and not is_ref and '[' not in txt and ct not in SYS:
             rec = ct[len('struct '):].strip()
             ce = self.strip_tmp(ks[0]) if ks else None
             if ce is not None and ce['kind'] in ('CXXConstructExpr', 'CXXTemporaryObjectExpr'):
@@ -1593,7 +1636,7 @@ class Unit:
             d = self.dtor_of_cname(rec)
             if d: self.scopes[-1]['vars'].append('%s(&%s);' % (d, name))
             return
-        if ks and self.strip_tmp(ks[0])['kind'] == 'CXXConstructExpr' and not self.kids(self.strip_tmp(ks[0])) and ('[' in txt or not ct.startswith('struct ') or ct in ('struct iovec', 'struct timeval', 'struct timespec')):
+        if ks and self.strip_tmp(ks[0])['kind'] == 'CXXConstructExpr' and not self.kids(self.strip_tmp(ks[0])) and ('[' in txt or not ct.startswith('struct ') or ct in SYS):
             self.w(p + '%s;' % txt)      # trivial default initialisation: left uninitialised exactly like C++
             return
         if ks:
@@ -1770,6 +1813,11 @@ class Unit:
             ids = self.select(q, sig)
             if not ids: raise Unsupported('selector %s%s matches no function in the AST dump' % (q, ' [%s]' % sig if sig else ''))
             for cid in ids: self.need_func(cid)
+        for gname in self.spec.get(('need_globals',), []):
+            # globals that only the contracts mention (the function bodies that use them are replaced by contracts in this unit)
+            vids = [i for i, x in self.by_id.items() if x.get('kind') == 'VarDecl' and self.qname.get(i) == gname]
+            if not vids: raise Unsupported('global %s named by the spec is not in the AST dump' % gname)
+            self.need_global(vids[0])
         while self.work:
             cid = self.work.pop(0)
             self.emit_func(cid)
